@@ -261,11 +261,23 @@ def batch_async(facts, R, path):
     s = Sym(b)
     pushes = [(i, t) for i, t in b.calls() if t["callee"]["name"] == "push" and "Vec" in t["callee"]["path"]]
     stores = [(i, t) for i, t in b.calls() if t["callee"]["name"] == "index_mut"]
-    R.check(len(pushes) == 1 and len(stores) == 1, "index-travels", path, "one push, one slot store", "pushes=%d stores=%d" % (len(pushes), len(stores)), b.span)
-    if len(pushes) != 1 or len(stores) != 1:
+    # the (index, handle) items are built by one workers.push(..) in a loop, or by the closure of a .map(..).collect()
+    mapped = []
+    if not pushes:
+        for c in facts.children(path):
+            v = Sym(c).local(0)
+            if v[0] == "agg" and v[1] == "tuple" and len(v[3]) == 2 and any(x[0] == "agg" and x[1].startswith("coroutine:") for x in walk(v)):
+                mapped.append((c, v))
+    R.check(len(pushes) + len(mapped) == 1 and len(stores) == 1, "index-travels", path, "one push, one slot store",
+            "pushes=%d mapped=%d stores=%d" % (len(pushes), len(mapped), len(stores)), b.span)
+    if len(pushes) + len(mapped) != 1 or len(stores) != 1:
         return
-    pi, pt = pushes[0]
-    item = s.op(pt["args"][1])
+    if pushes:
+        pi, pt = pushes[0]
+        item = s.op(pt["args"][1])
+    else:
+        pt = {"span": mapped[0][0].span}
+        item = mapped[0][1]
     ok = item[0] == "agg" and item[1] == "tuple" and len(item[3]) == 2
     if ok:
         idx, handle = item[3][0][1], item[3][1][1]
@@ -305,5 +317,6 @@ def batch_async(facts, R, path):
     R.check(base2 is not None and okv and awaited_same, "index-travels", path, "out[item.0] = await item.1",
             "second loop stores at %s; awaited handle from the same item: %s" % (render(idx2), awaited_same), st.get("span"), "index and handle come from one workers item")
     chain = [t["callee"]["name"] for i, t in b.calls() if t["callee"].get("trait") == "std::iter::Iterator"]
-    R.check("enumerate" in chain and not any(n in chain for n in ("rev", "skip", "step_by", "zip", "filter")), "index-travels", path, "requests.enumerate()",
+    R.check("enumerate" in chain and not any(n in chain for n in ("rev", "skip", "step_by", "zip", "filter", "skip_while", "take_while", "filter_map", "flat_map", "chain", "cycle")),
+            "index-travels", path, "requests.enumerate()",
             "iterator chain is %s" % chain, b.span, "chain: %s" % chain)
